@@ -49,6 +49,7 @@ func runC09(p *core.Prog, r *core.Report) {
 	c09R11(p, r)
 	// the importer skips what the target already has: that question goes to the target
 	headAsksRule(p, r, "C09.R12")
+	c09R13(p, r)
 }
 
 // c09R11: the archive names the image by the tag it was exported under, and the export takes that
@@ -662,8 +663,65 @@ func failureReturn(fn *ssa.Function, ret *ssa.Return) bool {
 	}
 	return anyGuard(ret.Block(), func(c ssa.Value, pol bool) bool {
 		x, neq, isNil := errCmpNil(c)
-		return isNil && neq == pol && x == v
+		return isNil && neq == pol && (x == v || sameCellValue(x, v))
 	})
+}
+
+// sameCellValue: two loads of one local cell that see the same stores (a named result that go/ssa
+// keeps in memory because the function defers: the test loads it, the return loads it again).
+func sameCellValue(a, b ssa.Value) bool {
+	ua, ok1 := a.(*ssa.UnOp)
+	ub, ok2 := b.(*ssa.UnOp)
+	if !ok1 || !ok2 || ua.Op != token.MUL || ub.Op != token.MUL || ua.X != ub.X {
+		return false
+	}
+	cell, ok := ua.X.(*ssa.Alloc)
+	if !ok {
+		return false
+	}
+	// walk back from the second load: every path must meet the first load before a store to the cell
+	// (deferred literals run after the return value is set; any other call that could write the cell
+	// through a closure ends the walk)
+	ok = true
+	seen := map[*ssa.BasicBlock]bool{}
+	var back func(b *ssa.BasicBlock, from int)
+	back = func(b *ssa.BasicBlock, from int) {
+		for i := from; i >= 0 && ok; i-- {
+			in := b.Instrs[i]
+			if in == ssa.Instruction(ua) {
+				return
+			}
+			switch x := in.(type) {
+			case *ssa.Store:
+				if x.Addr == ssa.Value(cell) {
+					ok = false
+				}
+			case *ssa.Call:
+				if mc, isMC := x.Call.Value.(*ssa.MakeClosure); isMC {
+					for _, bnd := range mc.Bindings {
+						if bnd == ssa.Value(cell) {
+							ok = false
+						}
+					}
+				}
+			}
+		}
+		if !ok {
+			return
+		}
+		if len(b.Preds) == 0 {
+			ok = false
+			return
+		}
+		for _, p := range b.Preds {
+			if !seen[p] {
+				seen[p] = true
+				back(p, len(p.Instrs)-1)
+			}
+		}
+	}
+	back(ub.Block(), core.InstrIndex(ub)-1)
+	return ok
 }
 
 // ---------------------------------------------------------------------------------------------
@@ -907,4 +965,278 @@ func headAsksRule(p *core.Prog, r *core.Report, rule string) {
 		r.Check(ok && n > 0, rule, p.FuncName(fn), "answer comes from the scheme", p.Pos(fn.Pos()),
 			"the return at "+bad+" reports success with a value that is not the scheme's answer: the question whether the target holds the content is answered without asking the target")
 	}
+}
+
+// ---------------------------------------------------------------------------------------------
+// R13 the archive is finished, and a failure to finish it is reported
+
+// isArchiveWriterCtor: constructors of writers that hold data back until Close (the end-of-archive
+// blocks of a tar stream, the last compressed block and the trailer of gzip / zstd).
+func isArchiveWriterCtor(f *types.Func) bool {
+	if f == nil || f.Pkg() == nil {
+		return false
+	}
+	switch f.Pkg().Path() {
+	case "archive/tar":
+		return f.Name() == "NewWriter"
+	case "compress/gzip", "compress/zlib", "compress/flate":
+		return f.Name() == "NewWriter" || f.Name() == "NewWriterLevel" || f.Name() == "NewWriterLevelDict" || f.Name() == "NewWriterDict"
+	case "github.com/klauspost/compress/zstd":
+		return f.Name() == "NewWriter"
+	}
+	return false
+}
+
+// c09R13: what an export hands to its caller is a complete archive or an error. tar.Writer.Close
+// writes the end-of-archive blocks, gzip.Writer.Close the data still buffered and the trailer; both
+// report the failure of the output they write to. A writer that is closed only by a deferred call
+// whose result is dropped lets an export to an output that fails late return nil.
+func c09R13(p *core.Prog, r *core.Report) {
+	const rule = "C09.R13"
+	r.Rule(rule, "the archive is finished and a failure to finish it is reported: for every tar/gzip/zstd writer created in a function of the client package that returns an error, the error of the writer's Close reaches the caller — Close is called with its result used on every path to a return that can report success, or inside a deferred literal that stores the result into the function's error result (found D20 on the unchanged tree: both writers of ImageExport were closed by `defer w.Close()`)", 2)
+	fns := pkgFuncs(p, ".")
+	// helpers of the package that close a writer they are given (or find in a field) and return the error
+	closers := map[*ssa.Function]bool{}
+	isWriterClose := func(c ssa.CallInstruction) bool {
+		f := core.Callee(c)
+		if f == nil || f.Name() != "Close" || f.Pkg() == nil {
+			return false
+		}
+		switch f.Pkg().Path() {
+		case "archive/tar", "compress/gzip", "compress/zlib", "compress/flate", "github.com/klauspost/compress/zstd":
+			return true
+		}
+		return false
+	}
+	usedResult := func(c ssa.CallInstruction) bool {
+		cl, ok := c.(*ssa.Call)
+		if !ok {
+			return false
+		}
+		rf := cl.Referrers()
+		return rf != nil && len(*rf) > 0
+	}
+	for _, h := range fns {
+		if h.Parent() != nil || h.Signature.Results().Len() == 0 {
+			continue
+		}
+		core.Calls(h, func(c ssa.CallInstruction) {
+			if !isWriterClose(c) || !usedResult(c) {
+				return
+			}
+			for _, o := range core.Origins(core.CallArg(c, 0), core.SliceOpts{FieldsThrough: true}) {
+				if o.Kind == core.OParam {
+					closers[h] = true
+				}
+			}
+		})
+	}
+	lab := labeler{}
+	for _, fn := range fns {
+		if fn.Parent() != nil || len(fn.Blocks) == 0 {
+			continue
+		}
+		res := fn.Signature.Results()
+		if res.Len() == 0 || !isErr(res.At(res.Len()-1).Type()) {
+			continue
+		}
+		// result cells of fn (named results forced into memory by a deferred literal)
+		cells := map[*ssa.Alloc]bool{}
+		for _, ret := range core.Returns(fn) {
+			for _, v := range ret.Results {
+				if u, ok := v.(*ssa.UnOp); ok && u.Op == token.MUL && isErr(v.Type()) {
+					if al, ok := u.X.(*ssa.Alloc); ok {
+						cells[al] = true
+					}
+				}
+			}
+		}
+		unit := core.WithAnon(fn)
+		var ctors []*ssa.Call
+		for _, g := range unit {
+			core.Calls(g, func(c ssa.CallInstruction) {
+				if cl, ok := c.(*ssa.Call); ok && isArchiveWriterCtor(core.Callee(c)) {
+					ctors = append(ctors, cl)
+				}
+			})
+		}
+		for _, w := range ctors {
+			wf := w.Parent()
+			fromW := func(v ssa.Value) bool {
+				for _, o := range core.Origins(v, core.SliceOpts{FieldsThrough: true}) {
+					if o.Kind == core.OCall && o.Call == w {
+						return true
+					}
+				}
+				return false
+			}
+			var explicit []ssa.Instruction // used Close calls in the creating function
+			deferredHeard, closedAtAll := false, false
+			for _, g := range unit {
+				core.Calls(g, func(c ssa.CallInstruction) {
+					var recv ssa.Value
+					switch {
+					case isWriterClose(c):
+						recv = core.CallArg(c, 0)
+					case closers[core.CalleeFn(c)]:
+						for i := range c.Common().Args {
+							if a := core.CallArg(c, i); a != nil && fromW(a) {
+								recv = a
+							}
+						}
+					}
+					if recv == nil || !fromW(recv) {
+						return
+					}
+					closedAtAll = true
+					if !usedResult(c) {
+						return
+					}
+					cl := c.(*ssa.Call)
+					if g == wf {
+						explicit = append(explicit, cl)
+						return
+					}
+					// inside a literal: the result has to arrive in an error result of fn
+					if storesIntoResult(cl, cells, 0) {
+						deferredHeard = true
+					}
+				})
+			}
+			construct := lab.next(core.ShortFunc(core.Callee(w)) + " writer")
+			if deferredHeard {
+				r.Held(rule, p.FuncName(fn), construct, p.Pos(w.Pos()), "a deferred literal closes the writer and stores the result into the function's error result")
+				continue
+			}
+			if len(explicit) > 0 {
+				stop := map[ssa.Instruction]bool{}
+				for _, e := range explicit {
+					stop[e] = true
+				}
+				bad := ""
+				// after the creation the writer is not nil: the nil edge of a test of it (`if gz != nil`
+				// around the Close of a writer that is created conditionally) is not a path from here
+				nilEdge := func(from, to *ssa.BasicBlock) bool {
+					ifi, ok := core.LastInstr(from).(*ssa.If)
+					if !ok || len(from.Succs) != 2 {
+						return false
+					}
+					cnd, pol := core.StripNot(ifi.Cond, true)
+					bo, ok := cnd.(*ssa.BinOp)
+					if !ok || (bo.Op != token.EQL && bo.Op != token.NEQ) {
+						return false
+					}
+					var x ssa.Value
+					switch {
+					case core.IsNilConst(bo.Y):
+						x = bo.X
+					case core.IsNilConst(bo.X):
+						x = bo.Y
+					default:
+						return false
+					}
+					if !fromW(x) {
+						return false
+					}
+					// successor 0 is taken when cond is true
+					isNilOnTrue := (bo.Op == token.EQL) == pol
+					if isNilOnTrue {
+						return to == from.Succs[0]
+					}
+					return to == from.Succs[1]
+				}
+				seen := core.Reach{Stop: func(in ssa.Instruction) bool { return stop[in] }, StopEdge: nilEdge}.FromInstr(w)
+				for _, ret := range core.Returns(wf) {
+					if seen[ret] && !failureReturn(wf, ret) {
+						bad = p.Pos(ret.Pos())
+						break
+					}
+				}
+				if bad == "" {
+					r.Held(rule, p.FuncName(fn), construct, p.Pos(w.Pos()), fmt.Sprintf("%d checked Close call(s); no return that can report success is reachable from the creation without one", len(explicit)))
+					continue
+				}
+				r.Violated(rule, p.FuncName(fn), construct, p.Pos(w.Pos()), "the return at "+bad+" can report success and is reachable from the creation of the writer without a Close whose result is looked at: data the writer still holds is written by Close, and its failure is lost")
+				continue
+			}
+			what := "the writer is never closed in this function or its literals"
+			if closedAtAll {
+				what = "the writer is closed only by calls whose result is dropped (`defer w.Close()`)"
+			}
+			r.Violated(rule, p.FuncName(fn), construct, p.Pos(w.Pos()), what+": the end of the archive and the data still buffered are written by Close, so an output that fails late yields a truncated archive and a nil error")
+		}
+	}
+}
+
+// storesIntoResult: the value v (an error) arrives, possibly joined or wrapped, in a store to a free
+// variable of its literal that is bound to one of the given result cells.
+func storesIntoResult(v ssa.Value, cells map[*ssa.Alloc]bool, depth int) bool {
+	if depth > 4 {
+		return false
+	}
+	rf := v.Referrers()
+	if rf == nil {
+		return false
+	}
+	for _, u := range *rf {
+		switch x := u.(type) {
+		case *ssa.Store:
+			if x.Val != v {
+				continue
+			}
+			if fv, ok := x.Addr.(*ssa.FreeVar); ok {
+				if al, ok := core.FreeVarBinding(fv).(*ssa.Alloc); ok && cells[al] {
+					return true
+				}
+			}
+			if al, ok := x.Addr.(*ssa.Alloc); ok && cells[al] {
+				return true
+			}
+		case *ssa.Phi:
+			if storesIntoResult(x, cells, depth+1) {
+				return true
+			}
+		case *ssa.MakeInterface:
+			if storesIntoResult(x, cells, depth+1) {
+				return true
+			}
+		case *ssa.ChangeInterface:
+			if storesIntoResult(x, cells, depth+1) {
+				return true
+			}
+		case *ssa.Call:
+			if f := core.Callee(x); f != nil && (core.IsFunc(f, "errors", "Join") || core.IsFunc(f, "fmt", "Errorf")) {
+				if storesIntoResult(x, cells, depth+1) {
+					return true
+				}
+			}
+			}
+	}
+	// variadic packing: the value is stored into the slice handed to errors.Join / fmt.Errorf
+	for _, u := range *rf {
+		if st, ok := u.(*ssa.Store); ok && st.Val == v {
+			if ia, ok := st.Addr.(*ssa.IndexAddr); ok {
+				if al, ok := ia.X.(*ssa.Alloc); ok {
+					if arf := al.Referrers(); arf != nil {
+						for _, au := range *arf {
+							if sl, ok := au.(*ssa.Slice); ok {
+								if srf := sl.Referrers(); srf != nil {
+									for _, su := range *srf {
+										if c, ok := su.(*ssa.Call); ok {
+											if f := core.Callee(c); f != nil && (core.IsFunc(f, "errors", "Join") || core.IsFunc(f, "fmt", "Errorf")) {
+												if storesIntoResult(c, cells, depth+1) {
+													return true
+												}
+											}
+										}
+									}
+								}
+							}
+						}
+					}
+				}
+			}
+		}
+	}
+	return false
 }
